@@ -412,3 +412,16 @@ impl UnicodeExtensionList {
         Self::try_from_iter(iter)
     }
 }
+
+/// Verification hook (off unless built with `--cfg unic_locale_verif`): builds a list holding
+/// exactly the given attribute vector, so a harness can start from an arbitrary state that
+/// satisfies the representation invariant (sorted, duplicate-free, normalised attributes).
+#[cfg(unic_locale_verif)]
+impl UnicodeExtensionList {
+    pub fn verif_with_attributes(attributes: Vec<TinyStr8>) -> Self {
+        Self {
+            keywords: BTreeMap::new(),
+            attributes,
+        }
+    }
+}
